@@ -90,6 +90,27 @@ def parseItems (s : String) : Option (List (Nat × String × Nat × String)) :=
       pure (t, o, n, ":".intercalate rest)
     | _ => none
 
+-- ---------- big streams: the model replay is sampled
+
+/-- The models of `RestorePollardFrom` / `MapPollard.Read` / `WriteTo` / `Write` work on lists of
+bytes and association lists (that is what the theorems are about); one replay of a stream of
+70 kB takes seconds.  For streams beyond `bigStream` bytes (the many-tree histories: hundreds to
+thousands of records) the MODEL comparison is therefore made for a sample of the truncation
+points / sink offsets / readers / damaged variants only (counted as `dist:ser:modelsampledout` when
+skipped); the property ORACLE is evaluated on every item Go reported, as for small streams, and
+the comparison of the written bytes with the wire format of the specification is always made. -/
+def bigStream : Nat := 24000
+
+/-- does item `i` of `n` get the model replay, for a stream of `len` bytes -/
+def modelSampled (len n i : Nat) : Bool :=
+  len ≤ bigStream || i == 0 || i + 1 == n || i == n / 2
+
+/-- the same for lines that come one by one (readers, damaged variants): by a hash of the tag -/
+def modelSampledTag (len : Nat) (tag : String) (every : Nat) : Bool :=
+  len ≤ bigStream || (hash tag).toNat % every == 0
+
+def countSkipped (line : String) : M Unit := count "dist:ser:modelsampledout" line false
+
 -- ---------- the pointer forest
 
 def handlePWrite (line : String) (toks : List String) : M Unit := do
@@ -125,12 +146,14 @@ def handlePRestore (line : String) (toks : List String) : M Unit := do
       match mkReader rd bs with
       | some r =>
         count "ser:prestore" ((line.take 300).toString ++ toString (hash bs)) true
-        let m : Res (PState H256) := restorePollard r
-        expectEq "ser:prestore" (resStr m) s!"{outcome} {n}"
-        match m.out with
-        | .ok P => if P != PState.ofForest s.forest then
-            mismatch "ser:pmodelstate" "the pointer forest of the specification" "another state decoded by the model"
-        | _ => pure ()
+        if rd == "whole" || modelSampledTag bs.length rd 4 then
+          let m : Res (PState H256) := restorePollard r
+          expectEq "ser:prestore" (resStr m) s!"{outcome} {n}"
+          match m.out with
+          | .ok P => if P != PState.ofForest s.forest then
+              mismatch "ser:pmodelstate" "the pointer forest of the specification" "another state decoded by the model"
+          | _ => pure ()
+        else countSkipped line
         if outcome != "ok" || n != toString bs.length || verdict != "same" then
           oracleFail "ser:roundtrip" s!"{label} reader {trunc rd 60}: {outcome} {n} {verdict} (stream of {bs.length} bytes)"
       | none => parseError line
@@ -145,16 +168,20 @@ def handlePTrunc (line : String) (toks : List String) : M Unit := do
     | some bs, some its =>
       let key := toString (hash bs)
       let P0 := PState.ofForest s.forest
+      let mut i := 0
       for (t, outcome, n, verdict) in its do
         match mkReader rk (bs.take t) with
         | some r =>
           count "ser:ptrunc" s!"ptrunc {rk} {key} {t}" (outcome == "ok")
-          let m : Res (PState H256) := restorePollard r
-          expectEq "ser:ptrunc" s!"{t}: {resStr m}" s!"{t}: {outcome} {n}"
-          match m.out with
-          | .ok P => if P != P0 then
-              mismatch "ser:ptruncstate" s!"{t}: err or the original state" s!"{t}: the model accepts the prefix with another state"
-          | _ => pure ()
+          if modelSampled bs.length its.length i then
+            let m : Res (PState H256) := restorePollard r
+            expectEq "ser:ptrunc" s!"{t}: {resStr m}" s!"{t}: {outcome} {n}"
+            match m.out with
+            | .ok P => if P != P0 then
+                mismatch "ser:ptruncstate" s!"{t}: err or the original state" s!"{t}: the model accepts the prefix with another state"
+            | _ => pure ()
+          else countSkipped s!"ptrunc {rk} {key} {t}"
+          i := i + 1
           if outcome == "panic" || outcome == "hang" then
             oracleFail "ser:prefix" s!"{label}: restoring from the first {t} of {bs.length} bytes: {outcome}"
           else if outcome == "ok" && (verdict != "same" || n != t) then
@@ -173,10 +200,14 @@ def handlePSink (line : String) (toks : List String) : M Unit := do
     | some bs, some its =>
       let key := toString (hash bs)
       let P0 := PState.ofForest s.forest
+      let mut i := 0
       for (k, outcome, n, pfx) in its do
         count "ser:psink" s!"psink {key} {k}" true
-        let (m, w) := writeTo P0 ⟨[], k⟩
-        expectEq "ser:psink" s!"{k}: {resStr m} {if w.written == bs.take k then "p" else "x"}" s!"{k}: {outcome} {n} {pfx}"
+        if modelSampled bs.length its.length i then
+          let (m, w) := writeTo P0 ⟨[], k⟩
+          expectEq "ser:psink" s!"{k}: {resStr m} {if w.written == bs.take k then "p" else "x"}" s!"{k}: {outcome} {n} {pfx}"
+        else countSkipped s!"psink {key} {k}"
+        i := i + 1
         if outcome != "err" then
           oracleFail "ser:sink" s!"{label}: writer failing after {k} of {bs.length} bytes: WriteTo {outcome}"
         else if n > k then
@@ -247,13 +278,26 @@ def handleMWrite (line : String) (toks : List String) : M Unit := do
   | _ => parseError line
 
 /-- the state carried by the stored stream of `label` -/
+initialize storedMapCache : IO.Ref (Std.HashMap String (UInt64 × List Byte × MapSt H256)) ← IO.mkRef {}
+
 def storedMap (label : String) : M (Option (List Byte × MapSt H256)) := do
-  match ← getBytes label with
-  | some bs =>
-    match (mapRead (MapSt.fresh (H := H256)) (Reader.whole bs)).out with
-    | .ok st => pure (some (bs, st))
-    | _ => pure none
+  let s ← get
+  match s.extra.get? ("ser:" ++ label) with
   | none => pure none
+  | some hexs =>
+    -- decoded once per stored stream (every mrestore / mtrunc / msink / mdirty line needs it)
+    let c ← (storedMapCache.get : IO _)
+    match c.get? label with
+    | some (h, bs, st) => if h == hash hexs then return some (bs, st)
+    | none => pure ()
+    match parseHexBytes hexs with
+    | some bs =>
+      match (mapRead (MapSt.fresh (H := H256)) (Reader.whole bs)).out with
+      | .ok st =>
+        (storedMapCache.modify fun c => c.insert label (hash hexs, bs, st) : IO Unit)
+        pure (some (bs, st))
+      | _ => pure none
+    | none => pure none
 
 def handleMRestore (line : String) (toks : List String) : M Unit := do
   match toks with
@@ -263,12 +307,14 @@ def handleMRestore (line : String) (toks : List String) : M Unit := do
       match mkReader rd bs with
       | some r =>
         count "ser:mrestore" ((line.take 300).toString ++ toString (hash bs)) true
-        let m : Res (MapSt H256) := mapRead MapSt.fresh r
-        expectEq "ser:mrestore" (resStr m) s!"{outcome} {n}"
-        match m.out with
-        | .ok st' => if st' != st then
-            mismatch "ser:mmodelstate" "the state decoded from the unsplit stream" "another state decoded by the model"
-        | _ => pure ()
+        if rd == "whole" || modelSampledTag bs.length rd 4 then
+          let m : Res (MapSt H256) := mapRead MapSt.fresh r
+          expectEq "ser:mrestore" (resStr m) s!"{outcome} {n}"
+          match m.out with
+          | .ok st' => if st' != st then
+              mismatch "ser:mmodelstate" "the state decoded from the unsplit stream" "another state decoded by the model"
+          | _ => pure ()
+        else countSkipped line
         if outcome != "ok" || n != toString bs.length || verdict != "same" then
           oracleFail "ser:roundtrip" s!"{label} reader {trunc rd 60}: {outcome} {n} {verdict} (stream of {bs.length} bytes)"
       | none => parseError line
@@ -281,16 +327,20 @@ def handleMTrunc (line : String) (toks : List String) : M Unit := do
     match ← storedMap label, parseItems items with
     | some (bs, st), some its =>
       let key := toString (hash bs)
+      let mut i := 0
       for (t, outcome, n, verdict) in its do
         match mkReader rk (bs.take t) with
         | some r =>
           count "ser:mtrunc" s!"mtrunc {rk} {key} {t}" (outcome == "ok")
-          let m : Res (MapSt H256) := mapRead MapSt.fresh r
-          expectEq "ser:mtrunc" s!"{t}: {resStr m}" s!"{t}: {outcome} {n}"
-          match m.out with
-          | .ok st' => if st' != st then
-              mismatch "ser:mtruncstate" s!"{t}: err or the original state" s!"{t}: the model accepts the prefix with another state"
-          | _ => pure ()
+          if modelSampled bs.length its.length i then
+            let m : Res (MapSt H256) := mapRead MapSt.fresh r
+            expectEq "ser:mtrunc" s!"{t}: {resStr m}" s!"{t}: {outcome} {n}"
+            match m.out with
+            | .ok st' => if st' != st then
+                mismatch "ser:mtruncstate" s!"{t}: err or the original state" s!"{t}: the model accepts the prefix with another state"
+            | _ => pure ()
+          else countSkipped s!"mtrunc {rk} {key} {t}"
+          i := i + 1
           if outcome == "panic" || outcome == "hang" then
             oracleFail "ser:prefix" s!"{label}: reading the first {t} of {bs.length} bytes: {outcome}"
           else if outcome == "ok" && (verdict != "same" || n != t) then
@@ -307,12 +357,16 @@ def handleMSink (line : String) (toks : List String) : M Unit := do
     match ← storedMap label, parseItems items with
     | some (bs, st), some its =>
       let key := toString (hash bs)
+      let mut i := 0
       for (k, outcome, n, pfx) in its do
         count "ser:msink" s!"msink {key} {k}" true
         -- Go walks its maps in a fresh random order; the count does not depend on the order
         -- (all records have the same shape), the bytes beyond the header do
-        let (m, w) := mapWrite st ⟨[], k⟩
-        expectEq "ser:msink" s!"{k}: {resStr m} {if w.written.length == k then "p" else "x"}" s!"{k}: {outcome} {n} {pfx}"
+        if modelSampled bs.length its.length i then
+          let (m, w) := mapWrite st ⟨[], k⟩
+          expectEq "ser:msink" s!"{k}: {resStr m} {if w.written.length == k then "p" else "x"}" s!"{k}: {outcome} {n} {pfx}"
+        else countSkipped s!"msink {key} {k}"
+        i := i + 1
         if outcome != "err" then
           oracleFail "ser:sink" s!"{label}: writer failing after {k} of {bs.length} bytes: Write {outcome}"
         else if n > k then
@@ -375,14 +429,16 @@ def handlePCorrupt (line : String) (toks : List String) : M Unit := do
     match ← getBytes label, parseEdits edits with
     | some bs, some es =>
       count "ser:pcorrupt" s!"pcorrupt {hash bs} {edits}" (outcome == "ok")
-      let m : Res (PState H256) := restorePollard (Reader.whole (applyEdits bs es))
-      expectEq "ser:pcorrupt" (resStr m) s!"{outcome} {n}"
-      match m.out with
-      | .ok P =>
-        -- the pointer forest the model restored, written by the model of WriteTo
-        let ws := (writeRoots P.roots 16 ⟨le64 P.numLeaves ++ le64 P.numDels, 100000000⟩).2.written
-        if outcome == "ok" then expectEq "ser:pcorrupt" (bytesHex ws) rew
-      | _ => pure ()
+      if modelSampledTag bs.length edits 6 then
+        let m : Res (PState H256) := restorePollard (Reader.whole (applyEdits bs es))
+        expectEq "ser:pcorrupt" (resStr m) s!"{outcome} {n}"
+        match m.out with
+        | .ok P =>
+          -- the pointer forest the model restored, written by the model of WriteTo
+          let ws := (writeRoots P.roots 16 ⟨le64 P.numLeaves ++ le64 P.numDels, 100000000⟩).2.written
+          if outcome == "ok" then expectEq "ser:pcorrupt" (bytesHex ws) rew
+        | _ => pure ()
+      else countSkipped s!"pcorrupt {hash bs} {edits}"
       if outcome == "panic" || outcome == "hang" then
         oracleFail "ser:damaged" s!"{label}: restoring a damaged stream ({edits}): {outcome}"
     | _, _ => parseError line
@@ -394,11 +450,13 @@ def handleMCorrupt (line : String) (toks : List String) : M Unit := do
     match ← getBytes label, parseEdits edits with
     | some bs, some es =>
       count "ser:mcorrupt" s!"mcorrupt {hash bs} {edits}" (outcome == "ok")
-      let m : Res (MapSt H256) := mapRead MapSt.fresh (Reader.whole (applyEdits bs es))
-      expectEq "ser:mcorrupt" (resStr m) s!"{outcome} {n}"
-      match m.out with
-      | .ok st => if outcome == "ok" then expectEq "ser:mcorrupt" (mapStateStr st) s!"{tr} {nl} {c} {nd}"
-      | _ => pure ()
+      if modelSampledTag bs.length edits 12 then
+        let m : Res (MapSt H256) := mapRead MapSt.fresh (Reader.whole (applyEdits bs es))
+        expectEq "ser:mcorrupt" (resStr m) s!"{outcome} {n}"
+        match m.out with
+        | .ok st => if outcome == "ok" then expectEq "ser:mcorrupt" (mapStateStr st) s!"{tr} {nl} {c} {nd}"
+        | _ => pure ()
+      else countSkipped s!"mcorrupt {hash bs} {edits}"
       if outcome == "panic" || outcome == "hang" then
         oracleFail "ser:damaged" s!"{label}: reading a damaged stream ({edits}): {outcome}"
     | _, _ => parseError line
